@@ -29,6 +29,9 @@ class IPGhost(Ghost):
 
     def resume_parse(self, I):
         self.resumed = True
+        err = getattr(self.owner, "ghost_lark_error", None) if getattr(self, "owner", None) is not None else None
+        if err is not None:
+            raise err
         # A: by now the lexer callbacks have appended this text's comment tokens to the parser's buffer
         owner = getattr(self, "owner", None)
         if owner is not None and owner.include_comments:
@@ -148,6 +151,50 @@ class ParseWithComments(Contract):
             yield "keyed-by-line-stripped-text", S.and_(S.eq(ents[0][0], c1.line), S.eq(ents[0][1], S.strip(c1.value)), S.eq(ents[1][0], c2.line), S.eq(ents[1][1], S.strip(c2.value)))
         yield "buffer-holds-only-this-parse's-comments", len(p._comments) == 2
         yield "comments-assigned-on-the-tree", any(isinstance(n_, tuple) and n_ and n_[0] == "assign-call" for n_ in E.ctx.notes) if E.symbolic else True
+
+
+def lark_error(kind):
+    """a PyRaise carrying exactly the attributes a REAL exception of the installed Lark has (taken from a real instance
+    raised by the repository's grammar on a tiny bad input, so the model cannot drift from the library)"""
+    from mappyfile.parser import Parser
+    text = {"UnexpectedCharacters": "MAP @ END", "UnexpectedToken": "MAP END END"}[kind]
+    try:
+        Parser().lalr.parse(text)
+    except Exception as real:        # noqa: BLE001 - the exception object itself is what is wanted
+        if type(real).__name__ != kind:
+            raise LookupError(f"lark raised {type(real).__name__} for {text!r}, expected {kind}")
+        pr = PyRaise(type(real), real.args, "lark")
+        for k, v in vars(real).items():
+            setattr(pr, k, v)
+        return pr
+    raise LookupError(f"lark accepted {text!r}")
+
+
+@register
+class ParseRejects(Contract):
+    """a syntax error found by Lark (either kind: no terminal matches / a token in the wrong place) leaves parse as
+    that same Lark exception - nothing else is raised on the way out (C11: no other exception type escapes)"""
+    target = "mappyfile.parser.Parser.parse"
+    cases = ["UnexpectedCharacters/fn", "UnexpectedCharacters/nofn", "UnexpectedToken/fn", "UnexpectedToken/nofn"]
+    props = ("C11",)
+
+    @property
+    def name(self):
+        return "mappyfile.parser.Parser.parse/rejects"
+
+    def build(self, E, case):
+        kind, fn = case.split("/")
+        p = mk_parser(E, expand=False)
+        p.ghost_lark_error = lark_error(kind)
+        E.__dict__["err"] = p.ghost_lark_error
+        return (p, E.str("text"), E.str("fn") if fn == "fn" else None), {}
+
+    def ensures(self, E, case, args, kwargs, out):
+        err = E.__dict__["err"]
+        yield "the-lark-exception-propagates", out.kind == "raise" and out.exc is err.etype and out.exc_args == err.eargs
+
+    def replay_supported(self):
+        return False
 
 
 @register
